@@ -76,6 +76,32 @@ Definition write_variable (shell : bool) (delim name : str) (fs : list flag) : s
   name ++ [c_eq] ++ write_each shell delim fs ++ [c_nl].
 End W.
 
+(* PkgConfigWriter._write, the variables section (the lines before the empty line; the mach-o
+   install_names variable is not modelled).
+     installed form     one line per install root except bindir, the value is env.install_dirs[root]
+                        (a path: absolute, or under another install root)
+     -uninstalled form  srcdir = the absolute source directory;
+                        builddir = Path(.).relpath(directory, prefix=${pcfiledir}, localize=False): the
+                        variable pcfiledir followed by one /.. per component of the directory of the .pc
+                        files below the build directory (PkgConfigWriter.directory = pkgconfig: one).
+   The absolute build directory is not an input of the section: the -uninstalled file follows the
+   build tree wherever it is moved. *)
+Definition s_pcfiledir : str := STR "pcfiledir".
+Definition s_srcdir : str := STR "srcdir".
+Definition s_builddir : str := STR "builddir".
+
+Fixpoint ups (depth : nat) : str :=
+  match depth with O => [] | S k => c_slash :: c_dot :: c_dot :: ups k end.
+
+Definition builddir_value (depth : nat) : str := var_use s_pcfiledir ++ ups depth.
+
+Definition installed_vars (uw : char -> bool) (dirs : list (str * frag)) : str :=
+  List.concat (map (fun d => write_variable uw false [c_sp] (fst d) [[snd d]]) dirs).
+
+Definition uninstalled_vars (uw : char -> bool) (srcdir : str) (depth : nat) : str :=
+  write_variable uw false [c_sp] s_srcdir [[FPath None srcdir]] ++
+  write_variable uw false [c_sp] s_builddir [[FStr (builddir_value depth)]].
+
 (* SimpleRequirement._safe_str: name, or name op version with == written = *)
 Definition op_text (o : op) : str :=
   match o with
